@@ -111,4 +111,28 @@ C12_Case(id, ss, ctxk) ==
         accept |-> Check(ss, "pred"),
         cmds |-> <<FindAllCmd(<<Ref("p")>>)>>,
         texts |-> <<<<ba>>, <<bb>>, <<ba, ba>>>>]
+
+(* ============================================================ C09, process *)
+(* transforms applied to arbitrary match text: `match` in every operand     *)
+(* position of every operator the checker accepts                           *)
+C09P_Exprs ==
+  LET X == {PNum(0), PNum(2), PStr(<<>>), PStr(S7), PBool(TRUE), PVar("matchLength")}
+  IN {e \in {PBin(op, PVar("match"), x) : op \in AllBinOps, x \in X}
+            \cup {PBin(op, x, PVar("match")) : op \in AllBinOps, x \in X}
+            \cup {PBin(op, PVar("match"), PVar("match")) : op \in AllBinOps}
+            \cup {PUn(u, PVar("match")) : u \in PrefixOps}
+            \cup {PBin("/", PNum(10), PBin("-", PVar("matchLength"), PNum(1))), PBin("%", PNum(7), PBin("*", PVar("match"), PNum(1)))}
+        : Defined(e)}
+RunBody == <<Loop(1, -1, FALSE, NotLit(<<sp>>))>>
+C09P_Case(id, e) ==
+  [id |-> id, defs |-> <<>>, trans |-> <<[name |-> "f", stmts |-> Observe(e)]>>,
+   cmds |-> <<[kind |-> "replace", amt |-> [k |-> "all"], body |-> RunBody, with |-> <<WName("f")>>]>>,
+   sigma |-> <<48, 55, 97, 45, sp>>, lo |-> 1, hi |-> 3]
+(* a variable typed by its last assignment, used after the other branch ran *)
+FlowProbe ==
+  [id |-> 0, defs |-> <<>>,
+   trans |-> <<[name |-> "f", stmts |-> <<SIf(PBin("==", PVar("match"), PStr(Sa)), <<SSet("v", PBool(TRUE))>>, <<SSet("v", PStr(S7))>>),
+                                          SRet(PBin("-", PVar("v"), PNum(1)))>>]>>,
+   cmds |-> <<[kind |-> "replace", amt |-> [k |-> "all"], body |-> <<Cls("any")>>, with |-> <<WName("f")>>]>>,
+   texts |-> <<<<ba>>, <<bb>>, <<bb, ba>>>>]
 =============================================================================
